@@ -172,6 +172,33 @@ def run(ctx: Ctx) -> None:
                                       {"document": d}, f"schema accepts={sv}", f"codec accepts={pv}", clause="same documents accepted")
             if len(ctx.samples) < 3 and docs:
                 ctx.sample({"root": rname, "config": cname, "base_document": docs[0], "mutation_classes": ["delete-key", "add-unknown-key", "unknown-discriminator", "container-to-int", "scalar-to-list"]})
+    # (c) other configuration histories than the generator's: the two top-level models configured back to back with the SAME configuration,
+    # in both orders - what a model accepts depends on its own last configuration only
+    hugr_doc = next(({"version": ver, "nodes": x, "edges": [[[0, 0], [1, None]]], "metadata": [None, {"k": 1}], "encoder": "e"} for k, x in base if k == "hugr"), None)
+    test_doc = next(({"version": ver, k: x} for k, x in base if k != "hugr"), None)
+    for cname, conf in (("strict", strict), ("lax", lax)):
+        for first, second, doc, pref in ((TestingHugr, SerialHugr, hugr_doc, "hugr_schema"), (SerialHugr, TestingHugr, test_doc, "testing_hugr_schema")):
+            if doc is None:
+                continue
+            for prev in (lax if conf is strict else strict, None):      # the second model was last configured differently, or not since the plan
+                if prev is not None:
+                    second._pydantic_rebuild(prev, force=True)
+                first._pydantic_rebuild(conf, force=True)
+                second._pydantic_rebuild(conf, force=True)
+                published = json.loads((sdir / f"{pref}{'_strict' if cname == 'strict' else ''}_{ver}.json").read_text())
+                validator = jsonschema.validators.validator_for(published)({"$ref": f"#/$defs/{second.__name__}", "$defs": published["$defs"]})
+                for mk, d in (("unmutated", doc), ("add-unknown-key", dict(doc, **{"x-unknown-key": 1}))):
+                    ctx.evaluations += 1
+                    sv = validator.is_valid(d)
+                    try:
+                        second.model_validate_json(json.dumps(d))
+                        pv = True
+                    except ValidationError:
+                        pv = False
+                    if sv != pv:
+                        ctx.violation({"check": "acceptance after another configuration history", "root": second.__name__, "config": cname, "mutation": mk, "schema": sv, "codec": pv},
+                                      {"history": [first.__name__, second.__name__], "config": cname, "document": d}, f"schema accepts={sv}", f"codec accepts={pv}",
+                                      clause="same documents accepted (configuration histories)")
     # the version string in the models and in the file names
     for m in (SerialHugr, TestingHugr, Extension, Package):
         ctx.evaluations += 1
